@@ -2,6 +2,7 @@ package main
 
 import (
 	"fmt"
+	"strconv"
 
 	"github.com/nsqio/nsq/internal/verif"
 	"github.com/nsqio/nsq/verifharness/hlib"
@@ -168,7 +169,13 @@ func convertTrace(evs []verif.Event, w *hlib.NDJSON, report *Report) int {
 		case "Sent":
 			put(map[string]interface{}{"ev": e.Ev, "k": I(e, "k"), "id": S(e, "id"), "ok": B(e, "ok")})
 		case "KCmd":
-			put(map[string]interface{}{"ev": e.Ev, "k": I(e, "k"), "cmd": S(e, "cmd"), "arg": S(e, "arg"), "arg2": S(e, "arg2"), "err": S(e, "err")})
+			wf := len(S(e, "arg")) == 16
+			if S(e, "cmd") == "REQ" {
+				if _, err := strconv.ParseInt(S(e, "arg2"), 10, 64); err != nil {
+					wf = false
+				}
+			}
+			put(map[string]interface{}{"ev": e.Ev, "k": I(e, "k"), "cmd": S(e, "cmd"), "arg": S(e, "arg"), "arg2": S(e, "arg2"), "err": S(e, "err"), "wf": wf})
 		case "HRecv":
 			key, crc, ln := dig(e)
 			k, ok := kOf[S(e, "conn")]
